@@ -2,7 +2,7 @@
 rename had not happened.
 
 Rules name private functions of thai-lint in string literals.  When such a function (recorded with a fingerprint in
-tlsa/anchors_ref.json) no longer exists and exactly one *new* function of the same module has the same parameter list and
+tlsa/anchors_ref.json) no longer exists and exactly one *new* function of the same module has the same number of parameters and
 a close identifier bag, and the new name is introduced by nothing else, the edit is a rename.  The tree is then copied to
 a scratch directory with the new identifier spelled as the old one (word-boundary replacement over src/**.py - an
 alpha-renaming, line numbers unchanged), and every layer (ast facts, mypy call graph, rules) analyses that copy.  The
@@ -71,8 +71,8 @@ def detect(repo: Repo) -> dict[str, str]:
                 continue
             if g.name in known_names or g.name in mentioned:
                 continue
-            if _np(func_params(g.node)) != _np(r["params"]):
-                continue
+            if len(_np(func_params(g.node))) != len(_np(r["params"])):
+                continue   # parameters may be renamed along with the function; their number may not change
             bag, rb = set(func_bag(g.node)), set(r["bag"])
             # the body may call the renamed function itself (recursion): compare modulo the two names
             bag = {("." + r["name"]) if b == "." + g.name else (r["name"] + "()") if b == g.name + "()" else b for b in bag}
